@@ -52,11 +52,11 @@ Lemma be16_at_4 : forall a b c d v l, 0 <= v < 65536 -> be16_at (a :: b :: c :: 
 Proof. intros. unfold be16_at, byte_at, be16. cbn. natify. rewrite be16_sum by assumption. reflexivity. Qed.
 
 (* the first byte of a normal message selects the handler *)
-Lemma parse_normal_type : forall e i t r,
+Lemma parse_normal_type : forall e xl i t r,
   st_bytes i = t :: r ->
-  exists j, parse_normal e i = parse_body e t j /\ st_bytes j = r /\ st_eof j = st_eof i.
+  exists j, parse_normal e xl i = parse_body e xl t j /\ st_bytes j = r /\ st_eof j = st_eof i.
 Proof.
-  intros e i t r H. destruct (read_exact_app 1 i [t] r H eq_refl) as (j & R & B & E).
+  intros e xl i t r H. destruct (read_exact_app 1 i [t] r H eq_refl) as (j & R & B & E).
   exists j. unfold parse_normal. rewrite (bind_ok _ _ _ _ _ _ _ R). cbn. auto.
 Qed.
 
@@ -76,13 +76,13 @@ Lemma enc_cut_shape : forall t,
   enc_cut t = c06_rfbClientCutText :: ([0; 0; 0] ++ be32 (Z.of_nat (length t))) ++ t.
 Proof. reflexivity. Qed.
 
-Lemma parse_key : forall e i d k r,
+Lemma parse_key : forall e xl i d k r,
   byte_ok d -> 0 <= k < two32 -> st_bytes i = enc_key d k ++ r ->
-  exists j, parse_normal e i = ROk (MKey d k) j /\ st_bytes j = r /\ st_eof j = st_eof i.
+  exists j, parse_normal e xl i = ROk (MKey d k) j /\ st_bytes j = r /\ st_eof j = st_eof i.
 Proof.
-  intros e i d k r Hd Hk H. rewrite enc_key_shape in H. cbn [app] in H.
-  destruct (parse_normal_type e i _ _ H) as (j & P & B & E). rewrite P.
-  change (parse_body e c06_rfbKeyEvent) with
+  intros e xl i d k r Hd Hk H. rewrite enc_key_shape in H. cbn [app] in H.
+  destruct (parse_normal_type e xl i _ _ H) as (j & P & B & E). rewrite P.
+  change (parse_body e xl c06_rfbKeyEvent) with
     (bind (read_rest c06_rfbKeyEvent c06_sz_KeyEvent) (fun m =>
       need (byte_at m c06_off_key_down) (fun d =>
       need (be32_at m c06_off_key_key) (fun k => ret (MKey d k))))).
@@ -95,13 +95,13 @@ Proof.
   unfold ret. split; [reflexivity|]. split; congruence.
 Qed.
 
-Lemma parse_ptr : forall e i b x y r,
+Lemma parse_ptr : forall e xl i b x y r,
   byte_ok b -> 0 <= x < 65536 -> 0 <= y < 65536 -> st_bytes i = enc_ptr b x y ++ r ->
-  exists j, parse_normal e i = ROk (MPtr b x y) j /\ st_bytes j = r /\ st_eof j = st_eof i.
+  exists j, parse_normal e xl i = ROk (MPtr b x y) j /\ st_bytes j = r /\ st_eof j = st_eof i.
 Proof.
-  intros e i b x y r Hb Hx Hy H. rewrite enc_ptr_shape in H. cbn [app] in H.
-  destruct (parse_normal_type e i _ _ H) as (j & P & B & E). rewrite P.
-  change (parse_body e c06_rfbPointerEvent) with
+  intros e xl i b x y r Hb Hx Hy H. rewrite enc_ptr_shape in H. cbn [app] in H.
+  destruct (parse_normal_type e xl i _ _ H) as (j & P & B & E). rewrite P.
+  change (parse_body e xl c06_rfbPointerEvent) with
     (bind (read_rest c06_rfbPointerEvent c06_sz_PointerEvent) (fun m =>
       need (byte_at m c06_off_ptr_mask) (fun b =>
       need (be16_at m c06_off_ptr_x) (fun x =>
@@ -119,13 +119,13 @@ Proof.
 Qed.
 
 (* the classic ClientCutText with an acceptable length: every byte, any content *)
-Lemma parse_cut_ok : forall e i text r,
+Lemma parse_cut_ok : forall e xl i text r,
   Z.of_nat (length text) <= c06_cut_text_limit -> st_bytes i = enc_cut text ++ r ->
-  exists j, parse_normal e i = ROk (MCutText text) j /\ st_bytes j = r /\ st_eof j = st_eof i.
+  exists j, parse_normal e xl i = ROk (MCutText text) j /\ st_bytes j = r /\ st_eof j = st_eof i.
 Proof.
-  intros e i text r Hl H. rewrite enc_cut_shape in H. cbn [app] in H.
-  destruct (parse_normal_type e i _ _ H) as (j & P & B & E). rewrite P.
-  change (parse_body e c06_rfbClientCutText) with (parse_cut e c06_rfbClientCutText).
+  intros e xl i text r Hl H. rewrite enc_cut_shape in H. cbn [app] in H.
+  destruct (parse_normal_type e xl i _ _ H) as (j & P & B & E). rewrite P.
+  change (parse_body e xl c06_rfbClientCutText) with (parse_cut e xl c06_rfbClientCutText).
   unfold parse_cut.
   set (len := Z.of_nat (length text)) in *.
   change (0 :: 0 :: 0 :: (be32 len ++ text) ++ r) with (([0; 0; 0] ++ be32 len) ++ (text ++ r)) in B.
@@ -140,7 +140,7 @@ Proof.
   cbn [need].
   assert (Hext : (e && (two31 <=? len)) = false).
   { destruct e; cbn; auto. apply Z.leb_gt. unfold two31, c06_cut_text_limit in *. lia. }
-  rewrite Hext.
+  rewrite Hext. cbn [andb].
   assert (Hbig : (c06_cut_text_limit <? len) = false) by (apply Z.ltb_ge; lia).
   rewrite Hbig.
   assert (Hn : nat_of len = length text) by (unfold nat_of, len; apply Nat2Z.id).
@@ -149,14 +149,14 @@ Proof.
 Qed.
 
 (* ... and with a length beyond the limit: refused before a single text byte is read *)
-Lemma parse_cut_too_big : forall i len r,
+Lemma parse_cut_too_big : forall xl i len r,
   c06_cut_text_limit < len < two32 ->
   st_bytes i = c06_rfbClientCutText :: ([0; 0; 0] ++ be32 len) ++ r ->
-  parse_normal false i = RFail PTooBig.
+  parse_normal false xl i = RFail PTooBig.
 Proof.
-  intros i len r Hl H. cbn [app] in H.
-  destruct (parse_normal_type false i _ _ H) as (j & P & B & E). rewrite P.
-  change (parse_body false c06_rfbClientCutText) with (parse_cut false c06_rfbClientCutText).
+  intros xl i len r Hl H. cbn [app] in H.
+  destruct (parse_normal_type false xl i _ _ H) as (j & P & B & E). rewrite P.
+  change (parse_body false xl c06_rfbClientCutText) with (parse_cut false xl c06_rfbClientCutText).
   unfold parse_cut.
   change (0 :: 0 :: 0 :: be32 len ++ r) with (([0; 0; 0] ++ be32 len) ++ r) in B.
   destruct (read_rest_app c06_rfbClientCutText c06_sz_ClientCutText j _ _ B eq_refl) as (j' & R & B' & E').
@@ -235,26 +235,26 @@ Qed.
 Section Once.
 Variable ext_cut : bool -> clipst -> list Z -> clipst * list utf8cb * bool.
 
-Lemma parse_fixed : forall e i t b r, fixed_kind t (length b) -> st_bytes i = (t :: b) ++ r ->
-  exists m j, parse_normal e i = ROk m j /\ st_bytes j = r /\ st_eof j = st_eof i /\
+Lemma parse_fixed : forall e xl i t b r, fixed_kind t (length b) -> st_bytes i = (t :: b) ++ r ->
+  exists m j, parse_normal e xl i = ROk m j /\ st_bytes j = r /\ st_eof j = st_eof i /\
               forall cfg o c, apply_normal ext_cut cfg o c m = applied_same c o.
 Proof.
-  intros e i t b r K H. cbn [app] in H.
-  destruct (parse_normal_type e i _ _ H) as (j & P & B & E). rewrite P.
+  intros e xl i t b r K H. cbn [app] in H.
+  destruct (parse_normal_type e xl i _ _ H) as (j & P & B & E). rewrite P.
   destruct K as [[-> L]|[[-> L]|[[-> L]|[-> L]]]].
-  - change (parse_body e c06_rfbFramebufferUpdateRequest) with
+  - change (parse_body e xl c06_rfbFramebufferUpdateRequest) with
       (bind (read_rest c06_rfbFramebufferUpdateRequest c06_sz_FramebufferUpdateRequest) (fun m => ret (MFUR m))).
     destruct (read_rest_app c06_rfbFramebufferUpdateRequest c06_sz_FramebufferUpdateRequest j b r B L) as (j' & R & B' & E').
     rewrite (bind_ok _ _ _ _ _ _ _ R). eexists _, j'. unfold ret. repeat split; auto; congruence.
-  - change (parse_body e c06_rfbSetSW) with
+  - change (parse_body e xl c06_rfbSetSW) with
       (bind (read_rest c06_rfbSetSW c06_sz_SetSW) (fun m => ret (MSetSW m))).
     destruct (read_rest_app c06_rfbSetSW c06_sz_SetSW j b r B L) as (j' & R & B' & E').
     rewrite (bind_ok _ _ _ _ _ _ _ R). eexists _, j'. unfold ret. repeat split; auto; congruence.
-  - change (parse_body e c06_rfbSetServerInput) with
+  - change (parse_body e xl c06_rfbSetServerInput) with
       (bind (read_rest c06_rfbSetServerInput c06_sz_SetServerInput) (fun m => ret (MSetServerInput m))).
     destruct (read_rest_app c06_rfbSetServerInput c06_sz_SetServerInput j b r B L) as (j' & R & B' & E').
     rewrite (bind_ok _ _ _ _ _ _ _ R). eexists _, j'. unfold ret. repeat split; auto; congruence.
-  - change (parse_body e c06_rfbXvp) with
+  - change (parse_body e xl c06_rfbXvp) with
       (bind (read_rest c06_rfbXvp c06_sz_Xvp) (fun m => ret (MXvp m))).
     destruct (read_rest_app c06_rfbXvp c06_sz_Xvp j b r B L) as (j' & R & B' & E').
     rewrite (bind_ok _ _ _ _ _ _ _ R). eexists _, j'. unfold ret. repeat split; auto; congruence.
@@ -275,14 +275,14 @@ Proof.
     exists j'. rewrite R'. cbn [rev]. rewrite <- app_assoc. cbn [app]. split; [reflexivity|]. split; congruence.
 Qed.
 
-Lemma parse_setenc : forall e i encs r,
+Lemma parse_setenc : forall e xl i encs r,
   Z.of_nat (length encs) < 65536 -> Forall (fun x => 0 <= x < two32) encs ->
   st_bytes i = enc_setenc encs ++ r ->
-  exists j, parse_normal e i = ROk (MSetEncodings encs) j /\ st_bytes j = r /\ st_eof j = st_eof i.
+  exists j, parse_normal e xl i = ROk (MSetEncodings encs) j /\ st_bytes j = r /\ st_eof j = st_eof i.
 Proof.
-  intros e i encs r Hn Hf H. unfold enc_setenc in H. cbn [app] in H.
-  destruct (parse_normal_type e i _ _ H) as (j & P & B & E). rewrite P.
-  change (parse_body e c06_rfbSetEncodings) with
+  intros e xl i encs r Hn Hf H. unfold enc_setenc in H. cbn [app] in H.
+  destruct (parse_normal_type e xl i _ _ H) as (j & P & B & E). rewrite P.
+  change (parse_body e xl c06_rfbSetEncodings) with
     (bind (read_rest c06_rfbSetEncodings c06_sz_SetEncodings) (fun m =>
       need (be16_at m c06_off_se_n) (fun n =>
       bind (read_words (nat_of n) []) (fun encs => ret (MSetEncodings encs))))).
@@ -299,14 +299,14 @@ Proof.
   split; [reflexivity|]. split; congruence.
 Qed.
 
-Lemma parse_pixfmt : forall e i b r,
+Lemma parse_pixfmt : forall e xl i b r,
   length b = (nat_of c06_sz_SetPixelFormat - 1)%nat ->
   st_bytes i = (c06_rfbSetPixelFormat :: b) ++ r ->
-  exists j, parse_normal e i = ROk (MSetPixFmt (c06_rfbSetPixelFormat :: b)) j /\ st_bytes j = r /\ st_eof j = st_eof i.
+  exists j, parse_normal e xl i = ROk (MSetPixFmt (c06_rfbSetPixelFormat :: b)) j /\ st_bytes j = r /\ st_eof j = st_eof i.
 Proof.
-  intros e i b r L H. cbn [app] in H.
-  destruct (parse_normal_type e i _ _ H) as (j & P & B & E). rewrite P.
-  change (parse_body e c06_rfbSetPixelFormat) with
+  intros e xl i b r L H. cbn [app] in H.
+  destruct (parse_normal_type e xl i _ _ H) as (j & P & B & E). rewrite P.
+  change (parse_body e xl c06_rfbSetPixelFormat) with
     (bind (read_rest c06_rfbSetPixelFormat c06_sz_SetPixelFormat) (fun m => ret (MSetPixFmt m))).
   destruct (read_rest_app c06_rfbSetPixelFormat c06_sz_SetPixelFormat j b r B L) as (j' & R & B' & E').
   rewrite (bind_ok _ _ _ _ _ _ _ R). exists j'. unfold ret. split; [reflexivity|]. split; congruence.
@@ -324,14 +324,14 @@ Proof.
   unfold handle_client. rewrite Hst. cbn [parse_for].
   destruct w as [[d k|bm x y|t]|t body|encs|pb]; cbn [enc_w enc_input wmsg_ok input_ok expected] in *.
   - destruct K as [Kd Kk].
-    destruct (parse_key (k_ext (c_clip c)) (c_in c) d k r Kd Kk H) as (j & P & B & E). rewrite P.
+    destruct (parse_key (k_ext (c_clip c)) (fix_extlimit cfg) (c_in c) d k r Kd Kk H) as (j & P & B & E). rewrite P.
     unfold apply_msg. replace (c_state (set_in c j)) with SNormal by (destruct c; cbn in *; congruence).
     cbn [apply_normal]. replace (c_viewonly (set_in c j)) with false by (destruct c; cbn in *; congruence).
     cbn [a_client a_events a_close_others a_owner]. rewrite c_in_set_in.
     replace (c_id (set_in c j)) with (c_id c0) by (destruct c; cbn in *; congruence).
     split; [apply cinv_set_in; exact I|repeat split; auto].
   - destruct K as (Kb & Kx & Ky).
-    destruct (parse_ptr (k_ext (c_clip c)) (c_in c) bm x y r Kb Kx Ky H) as (j & P & B & E). rewrite P.
+    destruct (parse_ptr (k_ext (c_clip c)) (fix_extlimit cfg) (c_in c) bm x y r Kb Kx Ky H) as (j & P & B & E). rewrite P.
     unfold apply_msg. replace (c_state (set_in c j)) with SNormal by (destruct c; cbn in *; congruence).
     cbn [apply_normal].
     replace (c_id (set_in c j)) with (c_id c0) by (destruct c; cbn in *; congruence).
@@ -345,25 +345,25 @@ Proof.
     all: try (destruct (bm =? 0); cbn; auto; apply Z.eqb_refl).
     destruct (fix_defer cfg); destruct c; cbn in *; lia.
   - destruct K as [Kt Kl].
-    destruct (parse_cut_ok (k_ext (c_clip c)) (c_in c) t r Kl H) as (j & P & B & E). rewrite P.
+    destruct (parse_cut_ok (k_ext (c_clip c)) (fix_extlimit cfg) (c_in c) t r Kl H) as (j & P & B & E). rewrite P.
     unfold apply_msg. replace (c_state (set_in c j)) with SNormal by (destruct c; cbn in *; congruence).
     cbn [apply_normal]. replace (c_viewonly (set_in c j)) with false by (destruct c; cbn in *; congruence).
     cbn [a_client a_events a_close_others a_owner]. rewrite c_in_set_in.
     replace (c_id (set_in c j)) with (c_id c0) by (destruct c; cbn in *; congruence).
     split; [apply cinv_set_in; exact I|repeat split; auto].
-  - destruct (parse_fixed (k_ext (c_clip c)) (c_in c) t body r K H) as (m & j & P & B & E & Ap). rewrite P.
+  - destruct (parse_fixed (k_ext (c_clip c)) (fix_extlimit cfg) (c_in c) t body r K H) as (m & j & P & B & E & Ap). rewrite P.
     unfold apply_msg. replace (c_state (set_in c j)) with SNormal by (destruct c; cbn in *; congruence).
     rewrite Ap. cbn [applied_same a_client a_events a_close_others a_owner]. rewrite c_in_set_in.
     split; [apply cinv_set_in; exact I|repeat split; auto].
   - destruct K as [Kn Kf].
-    destruct (parse_setenc (k_ext (c_clip c)) (c_in c) encs r Kn Kf H) as (j & P & B & E). rewrite P.
+    destruct (parse_setenc (k_ext (c_clip c)) (fix_extlimit cfg) (c_in c) encs r Kn Kf H) as (j & P & B & E). rewrite P.
     unfold apply_msg. replace (c_state (set_in c j)) with SNormal by (destruct c; cbn in *; congruence).
     cbn [apply_normal applied_same a_client a_events a_close_others a_owner].
     split; [apply cinv_set_clip; apply cinv_set_in; exact I|].
     replace (c_in (set_clip (set_in c j) (apply_encodings cfg (c_clip (set_in c j)) encs))) with j by (destruct c; reflexivity).
     repeat split; auto.
   - destruct K as (Kl & bpp & tc & Kb & Kt & Kok).
-    destruct (parse_pixfmt (k_ext (c_clip c)) (c_in c) pb r Kl H) as (j & P & B & E). rewrite P.
+    destruct (parse_pixfmt (k_ext (c_clip c)) (fix_extlimit cfg) (c_in c) pb r Kl H) as (j & P & B & E). rewrite P.
     unfold apply_msg. replace (c_state (set_in c j)) with SNormal by (destruct c; cbn in *; congruence).
     cbn [apply_normal]. rewrite Kb, Kt, Kok.
     cbn [applied_same a_client a_events a_close_others a_owner]. rewrite c_in_set_in.
@@ -479,14 +479,14 @@ End Once.
 Section Limit.
 Variable ext_cut : bool -> clipst -> list Z -> clipst * list utf8cb * bool.
 
-Lemma parse_cut_too_big_e : forall e i len r,
+Lemma parse_cut_too_big_e : forall e xl i len r,
   c06_cut_text_limit < len < two32 -> (e = false \/ len < two31) ->
   st_bytes i = c06_rfbClientCutText :: ([0; 0; 0] ++ be32 len) ++ r ->
-  parse_normal e i = RFail PTooBig.
+  parse_normal e xl i = RFail PTooBig.
 Proof.
-  intros e i len r Hl He H. cbn [app] in H.
-  destruct (parse_normal_type e i _ _ H) as (j & P & B & E). rewrite P.
-  change (parse_body e c06_rfbClientCutText) with (parse_cut e c06_rfbClientCutText).
+  intros e xl i len r Hl He H. cbn [app] in H.
+  destruct (parse_normal_type e xl i _ _ H) as (j & P & B & E). rewrite P.
+  change (parse_body e xl c06_rfbClientCutText) with (parse_cut e xl c06_rfbClientCutText).
   unfold parse_cut.
   change (0 :: 0 :: 0 :: be32 len ++ r) with (([0; 0; 0] ++ be32 len) ++ r) in B.
   destruct (read_rest_app c06_rfbClientCutText c06_sz_ClientCutText j _ _ B eq_refl) as (j' & R & B' & E').
@@ -497,7 +497,7 @@ Proof.
   cbn [need].
   assert (Hext : (e && (two31 <=? len)) = false).
   { destruct He as [->|He]; [reflexivity|]. destruct e; cbn; auto. apply Z.leb_gt. exact He. }
-  rewrite Hext.
+  rewrite Hext. cbn [andb].
   assert (Hbig : (c06_cut_text_limit <? len) = true) by (apply Z.ltb_lt; lia).
   rewrite Hbig. reflexivity.
 Qed.
@@ -512,7 +512,7 @@ Lemma cut_limit_accept : forall cfg o c b text r,
   st_bytes (c_in (a_client a)) = r /\ a_owner a = o.
 Proof.
   intros cfg o c b text r Hst Hvo Hl H. unfold handle_client. rewrite Hst. cbn [parse_for].
-  destruct (parse_cut_ok (k_ext (c_clip c)) (c_in c) text r Hl H) as (j & P & B & E). rewrite P.
+  destruct (parse_cut_ok (k_ext (c_clip c)) (fix_extlimit cfg) (c_in c) text r Hl H) as (j & P & B & E). rewrite P.
   unfold apply_msg. replace (c_state (set_in c j)) with SNormal by (destruct c; cbn in *; congruence).
   cbn [apply_normal]. replace (c_viewonly (set_in c j)) with false by (destruct c; cbn in *; congruence).
   cbn [a_client a_events a_owner]. rewrite c_in_set_in. destruct c; cbn in *. auto.
@@ -527,7 +527,7 @@ Lemma cut_limit_reject : forall cfg o c b len r,
   a_events a = [] /\ c_closed (a_client a) = true /\ a_owner a = o /\ a_close_others a = false.
 Proof.
   intros cfg o c b len r Hst Hl He H. unfold handle_client. rewrite Hst. cbn [parse_for].
-  rewrite (parse_cut_too_big_e _ _ len r Hl He H). unfold applied_close. cbn. destruct c; auto.
+  rewrite (parse_cut_too_big_e _ _ _ len r Hl He H). unfold applied_close. cbn. destruct c; auto.
 Qed.
 
 End Limit.
@@ -628,6 +628,81 @@ Proof.
   rewrite orb_true_r. destruct c; cbn. auto.
 Qed.
 
+(* Every PointerEvent of a permitted client is either delivered at once - and then NOTHING stays
+   remembered (repair 4105625) - or it becomes THE remembered position, replacing any older one.
+   Together with [defer_flush] (the remembered position is delivered exactly once and cleared):
+   whatever is delivered last carries the mask and position of the last message handled. *)
+Lemma defer_step : forall cfg o c mask x y x' y',
+  fix_defer cfg = true ->
+  ptr_allowed o (c_id c) = true -> c_viewonly c = false -> map_pos cfg c x y = Some (x', y') ->
+  let a := apply_normal ext_cut cfg o c (MPtr mask x y) in
+  (a_events a = [EvPtr (c_id c) mask x' y'] /\ p_lastx (c_ptr (a_client a)) = -1 /\
+   p_lastbtn (c_ptr (a_client a)) = mask) \/
+  (a_events a = [] /\ p_lastbtn (c_ptr (a_client a)) = mask /\
+   p_lastx (c_ptr (a_client a)) = x' /\ p_lasty (c_ptr (a_client a)) = y').
+Proof.
+  intros cfg o c mask x y x' y' F A V P. cbn [apply_normal]. rewrite A, V. cbn [negb].
+  destruct (negb (mask =? p_lastbtn (c_ptr c)) || (g_deferptr cfg =? 0)).
+  - left. rewrite F. unfold ptr_event. rewrite P. destruct c; cbn. auto.
+  - right. rewrite P. destruct c; cbn. auto.
+Qed.
+
+(* ---- whole sequences of pointer messages ---- *)
+Fixpoint feed_ptr (cfg : config) (o : option Z) (c : client) (ms : list (Z * Z * Z))
+  : client * option Z * list event :=
+  match ms with
+  | [] => (c, o, [])
+  | (mask, x, y) :: r =>
+      let a := apply_normal ext_cut cfg o c (MPtr mask x y) in
+      let '(c2, o2, e2) := feed_ptr cfg (a_owner a) (a_client a) r in
+      (c2, o2, a_events a ++ e2)
+  end.
+
+Lemma ptr_pres : forall cfg o c mask x y,
+  ptr_allowed o (c_id c) = true ->
+  let a := apply_normal ext_cut cfg o c (MPtr mask x y) in
+  c_id (a_client a) = c_id c /\ c_viewonly (a_client a) = c_viewonly c /\
+  c_sw (a_client a) = c_sw c /\ c_sh (a_client a) = c_sh c /\
+  ptr_allowed (a_owner a) (c_id c) = true.
+Proof.
+  intros cfg o c mask x y A. cbn [apply_normal]. rewrite A. cbn [negb].
+  assert (Ho : ptr_allowed (if mask =? 0 then None else Some (c_id c)) (c_id c) = true)
+    by (destruct (mask =? 0); cbn; auto; apply Z.eqb_refl).
+  destruct (c_viewonly c) eqn:V; cbn [applied_same a_client a_owner]; [repeat split; auto|].
+  repeat match goal with
+         | |- context [if ?b then _ else _] => destruct b
+         | |- context [match map_pos ?a ?b ?c ?d with _ => _ end] => destruct (map_pos a b c d) as [[? ?]|]
+         end; cbn [a_client a_owner]; destruct c; cbn in *; repeat split; auto.
+Qed.
+
+Lemma map_pos_pres : forall cfg c c' x y, c_sw c' = c_sw c -> c_sh c' = c_sh c -> map_pos cfg c' x y = map_pos cfg c x y.
+Proof. intros cfg c c' x y Hw Hh. unfold map_pos. rewrite Hw, Hh. reflexivity. Qed.
+
+(* after ANY sequence of pointer messages of a permitted client, the last message is either the
+   last callback made (nothing remembered) or it is what is remembered for the next flush *)
+Lemma defer_last : forall cfg ms o c mask x y x' y',
+  fix_defer cfg = true ->
+  ptr_allowed o (c_id c) = true -> c_viewonly c = false -> map_pos cfg c x y = Some (x', y') ->
+  let '(c2, o2, evs) := feed_ptr cfg o c (ms ++ [(mask, x, y)]) in
+  (p_lastx (c_ptr c2) = -1 /\ exists pre, evs = pre ++ [EvPtr (c_id c) mask x' y']) \/
+  (p_lastbtn (c_ptr c2) = mask /\ p_lastx (c_ptr c2) = x' /\ p_lasty (c_ptr c2) = y').
+Proof.
+  intros cfg ms. induction ms as [|[[m0 x0] y0] r IH]; intros o c mask x y x' y' F A V P.
+  - cbn [app feed_ptr]. pose proof (defer_step cfg o c mask x y x' y' F A V P) as D. cbv zeta in D.
+    destruct D as [(E & L & _)|(E & B & L & L2)].
+    + left. split; [exact L|]. exists []. rewrite app_nil_r. exact E.
+    + right. auto.
+  - cbn [app feed_ptr].
+    destruct (ptr_pres cfg o c m0 x0 y0 A) as (Hi & Hv & Hw & Hh & Ha).
+    set (a := apply_normal ext_cut cfg o c (MPtr m0 x0 y0)) in *.
+    rewrite <- Hi in Ha. rewrite <- Hv in V. rewrite <- (map_pos_pres cfg c (a_client a) x y Hw Hh) in P.
+    specialize (IH (a_owner a) (a_client a) mask x y x' y' F Ha V P).
+    destruct (feed_ptr cfg (a_owner a) (a_client a) (r ++ [(mask, x, y)])) as [[c2 o2] e2].
+    rewrite Hi in IH. destruct IH as [(L & pre & E)|R].
+    + left. split; [exact L|]. exists (a_events a ++ pre). rewrite E, app_assoc. reflexivity.
+    + right. exact R.
+Qed.
+
 End Defer.
 
 (* ... but a message with a CHANGED button mask is delivered at once and leaves the older
@@ -642,17 +717,17 @@ Definition defer_witness_ops : list op :=
    OTick 5000; OProcess; OTick 5000; OProcess].  (* the remembered drag position comes last *)
 
 Lemma defer_stale_witness :
-  snd (c06_run (init_server (mkCfg 100 80 false 0 false false false 999 false 0)) defer_witness_ops)
+  snd (c06_run (init_server (mkCfg 100 80 false 0 false false false 999 false 1)) defer_witness_ops)
   = [EvPtr 0 1 84 77; EvPtr 0 0 31 3; EvPtr 0 0 72 74].
 Proof. vm_compute. reflexivity. Qed.
 
-(* with the repair notes/fix_C06_1.diff (variant bit 0) the stale position is dropped *)
+(* the code as it is (repair 4105625): the stale position is dropped *)
 Lemma defer_fixed_witness :
-  snd (c06_run (init_server (mkCfg 100 80 false 0 false false false 999 false 1)) defer_witness_ops)
+  snd (c06_run (init_server (mkCfg 100 80 false 0 false false false 999 false 0)) defer_witness_ops)
   = [EvPtr 0 1 84 77; EvPtr 0 0 31 3].
 Proof. vm_compute. reflexivity. Qed.
 
-(* with the repair notes/fix_C06_2.diff (variant bit 1) a scaled position is the exact quotient *)
+(* the code as it is (repair c7c2b1b): a scaled position is the exact quotient *)
 Lemma scale_v_fixed : forall cfg x fw tw, fix_scale cfg = true -> 0 < fw ->
   scale_v cfg x fw tw = Some (x * tw / fw).
 Proof.
